@@ -62,6 +62,18 @@ def realize(x: Any) -> Any:
     return x
 
 
+def pin_int(x: Any, lo: int, hi: int) -> int:
+    """Concretize a symbolic int known to lie in [lo, hi] by one explicit fork per value.  Cheaper and more predictable than
+    ``realize`` (CrossHair's model-value search visits the same value combination several times once a few of them nest)."""
+    if not symbolic():
+        return x
+    for v in range(lo, hi + 1):
+        if x == v:
+            return v
+    assume(False)
+    raise AssertionError("unreachable")
+
+
 def untraced(fn: Any, *args: Any) -> Any:
     """Call ``fn`` on concrete values with CrossHair's tracing switched off (plain CPython speed)."""
     if symbolic():
